@@ -813,6 +813,8 @@ def _deserialize_graph(
         if initializer_name in values:
             # The initializer is for an input
             initializer_value = values[initializer_name]
+            # Reading the element type validates it, as for other initializers
+            _ = tensor.dtype
             initializer_value.const_value = tensor
         else:
             # The initializer is for some other value. Create this value first
